@@ -479,8 +479,8 @@ class StmtMixin(object):
             else:
               self.list_set(s2, base, j, v)
               yield s2, None
-        elif k == 'dict':
-          self.dict_set(s1, base, coerce(idx, base.ty.args[0]), v)
+        elif k in ('dict', 'ddict'):
+          self.dict_set(s1, base, self.key_term(s1, idx, base.ty.args[0]), v)
           yield s1, None
         elif k == 'ref' and self.reg.classes.get(base.ty.name) is not None and self.reg.classes[base.ty.name].listlike:
           c = z3.simplify(idx.t)
